@@ -293,7 +293,15 @@ func runMux(e *Env) {
 						if len(sc.Outstanding) >= 2 {
 							k.Probe("close-with-2+-outstanding")
 						}
-						cl.CloseConn(sc, false)
+						// an orderly end of stream, or a reset (a net.Error for the reader)
+						reset := tp.Chance(1, 3)
+						if reset {
+							k.Fault("conn.server-reset")
+						}
+						if sc.C.Unread() > 0 || cl.Partial(sc) {
+							k.Probe("close-mid-frame")
+						}
+						cl.CloseConn(sc, reset)
 					}})
 				}
 				acts = append(acts, kernel.Action{Key: "wfault:" + sc.C.Name, Rank: 6, Weight: 1, Do: func() {
@@ -319,6 +327,7 @@ func runMux(e *Env) {
 	k.PreStep = append(k.PreStep, func() {
 		cl.Process()
 		muxProbes(k, cl)
+		CheckWaiters(k)
 	})
 
 	k.Loop(nil)
